@@ -1,0 +1,38 @@
+//go:build verif
+
+// Verification hooks: exported aliases of unexported functions, compiled only with -tags verif.
+package extendeddaemonset
+
+import (
+	"time"
+
+	"github.com/go-logr/logr"
+	generator "k8s.io/kube-state-metrics/v2/pkg/metric_generator"
+
+	datadoghqv1alpha1 "github.com/DataDog/extendeddaemonset/api/v1alpha1"
+)
+
+// VerifSelectCurrentReplicaSet exposes selectCurrentReplicaSet.
+func VerifSelectCurrentReplicaSet(daemonset *datadoghqv1alpha1.ExtendedDaemonSet, activeRS, upToDateRS *datadoghqv1alpha1.ExtendedDaemonSetReplicaSet, now time.Time) (*datadoghqv1alpha1.ExtendedDaemonSetReplicaSet, time.Duration) {
+	return selectCurrentReplicaSet(daemonset, activeRS, upToDateRS, now)
+}
+
+// VerifSelectNodes exposes (*Reconciler).selectNodes.
+func (r *Reconciler) VerifSelectNodes(logger logr.Logger, daemonset *datadoghqv1alpha1.ExtendedDaemonSet, daemonsetSpec *datadoghqv1alpha1.ExtendedDaemonSetSpec, replicaset *datadoghqv1alpha1.ExtendedDaemonSetReplicaSet, canaryStatus *datadoghqv1alpha1.ExtendedDaemonSetStatusCanary) error {
+	return r.selectNodes(logger, daemonset, daemonsetSpec, replicaset, canaryStatus)
+}
+
+// VerifManageStatus exposes manageStatus.
+func VerifManageStatus(status *datadoghqv1alpha1.ExtendedDaemonSetStatus, upToDate *datadoghqv1alpha1.ExtendedDaemonSetReplicaSet, isCanaryActive bool, isCanaryFailed bool, isCanaryPaused bool, pausedReason datadoghqv1alpha1.ExtendedDaemonSetStatusReason, daemonset *datadoghqv1alpha1.ExtendedDaemonSet) *datadoghqv1alpha1.ExtendedDaemonSetStatus {
+	return manageStatus(status, upToDate, isCanaryActive, isCanaryFailed, isCanaryPaused, pausedReason, daemonset)
+}
+
+// VerifShouldDeleteERS exposes shouldDeleteERS.
+func VerifShouldDeleteERS(now time.Time, ers *datadoghqv1alpha1.ExtendedDaemonSetReplicaSet) bool {
+	return shouldDeleteERS(now, ers)
+}
+
+// VerifGenerateMetricFamilies exposes generateMetricFamilies.
+func VerifGenerateMetricFamilies() []generator.FamilyGenerator {
+	return generateMetricFamilies()
+}
